@@ -851,7 +851,11 @@ class ReadParquetPyarrowFS(ReadParquet):
     def _get_lengths(self):
         # TODO: Filters that only filter partition_expr can be used as well
         if not self.filters:
-            return tuple(stats["num_rows"] for stats in self.aggregated_statistics)
+            return tuple(
+                stats["num_rows"]
+                for i, stats in enumerate(self.aggregated_statistics)
+                if not self._filtered or i in self._partitions
+            )
 
     @cached_property
     def _dataset_info(self):
